@@ -43,7 +43,7 @@ def describe_run(r):
                  r.benchmark.suite.command, r.benchmark.suite.location, r.benchmark.suite.executor.path))
 
 
-def run_main(workdir, argv):
+def run_main(workdir, argv, cpu_count=1):
     drive._fast_environment()
     res = MainResult()
     argv = ['rebench', '-D'] + list(argv)   # safety: never touch system settings (we are root)
@@ -61,7 +61,7 @@ def run_main(workdir, argv):
     out, err = io.StringIO(), io.StringIO()
     os.chdir(workdir)
     sys.argv = argv
-    rb_exec.cpu_count = lambda: 1
+    rb_exec.cpu_count = lambda: cpu_count
     rb_main.ReBench.load_data_and_execute_experiments = wrapped
     try:
         with contextlib.redirect_stdout(out), contextlib.redirect_stderr(err), drive.scripted(layer):
@@ -80,3 +80,63 @@ def run_main(workdir, argv):
         rb_main.ReBench.load_data_and_execute_experiments = orig
     res.stdout, res.stderr = out.getvalue(), err.getvalue()
     return res
+
+
+# ------------------------------------------------------------------ real CLI in a child process
+def run_cli(workdir, argv, env_extra=None, timeout=120):
+    """`python -m rebench.rebench -D <argv>` as a child process with cwd = workdir: the things an
+    in-process session cannot show (git of the working directory, locale, encoding of stdout)."""
+    import subprocess
+    env = {'PYTHONPATH': lib.REPO, 'PYTHONDONTWRITEBYTECODE': '1', 'PYTHONHASHSEED': '0',
+           'PATH': os.environ.get('PATH', '/usr/bin:/bin'), 'HOME': workdir, 'LC_ALL': 'C.UTF-8'}
+    env.update(env_extra or {})
+    p = subprocess.run([sys.executable, '-B', '-m', 'rebench.rebench', '-D'] + list(argv), cwd=workdir, env=env,
+                       stdout=subprocess.PIPE, stderr=subprocess.PIPE, timeout=timeout)
+    out = p.stdout.decode('utf-8', 'replace')
+    err = p.stderr.decode('utf-8', 'replace')
+    crash = None
+    if 'Traceback (most recent call last)' in err or 'Traceback (most recent call last)' in out:
+        import re as _re
+        names = _re.findall(r'^([A-Za-z_][\w.]*(?:Error|Exception|Interrupt|Exit|Warning))\b', err + '\n' + out, _re.M)
+        crash = names[-1].split('.')[-1] if names else 'Traceback'
+    res = MainResult()
+    res.exit = p.returncode
+    res.stdout, res.stderr = out, err
+    if crash:
+        res.crash = (crash, (err or out)[-300:], [])
+    return res
+
+
+def make_git_repo(path, kind):
+    """a scratch git repository whose HEAD is plain ASCII ('ascii'), has a UTF-8 non-ASCII author and
+    message ('utf8'), the same printed in Latin-1 (`i18n.logOutputEncoding`, 'latin1-log'), or is a raw
+    commit object with Latin-1 bytes and no encoding header ('latin1-raw')"""
+    import subprocess
+    os.makedirs(path)
+    name = b'Dev' if kind == 'ascii' else 'J\u00fcrgen M\u00fcller'.encode('utf-8')
+    msg = b'Add benchmarks\n' if kind == 'ascii' else 'Benchmarks hinzugef\u00fcgt\n'.encode('utf-8')
+    env = {os.fsencode(k): os.fsencode(v) for k, v in
+           {'PATH': os.environ.get('PATH', '/usr/bin:/bin'), 'HOME': path, 'GIT_CONFIG_NOSYSTEM': '1'}.items()}
+    env[b'GIT_AUTHOR_NAME'] = env[b'GIT_COMMITTER_NAME'] = name if kind != 'latin1-raw' else b'Dev'
+    env[b'GIT_AUTHOR_EMAIL'] = env[b'GIT_COMMITTER_EMAIL'] = b'dev@example.org'
+
+    def git(args, **kw):
+        return subprocess.run(['git', '-C', path] + args, env=env, check=True, stdout=subprocess.PIPE,
+                              stderr=subprocess.DEVNULL, **kw)
+    git(['init', '-q'])
+    with open(os.path.join(path, 'README'), 'w') as f:
+        f.write('benchmarks\n')
+    with open(os.path.join(path, 'msg.txt'), 'wb') as f:
+        f.write(msg if kind != 'latin1-raw' else b'Add benchmarks\n')
+    git(['add', 'README'])
+    git(['-c', 'commit.gpgsign=false', 'commit', '-q', '-F', 'msg.txt'])
+    if kind == 'latin1-log':
+        git(['config', 'i18n.logOutputEncoding', 'ISO-8859-1'])
+    if kind == 'latin1-raw':
+        tree = git(['rev-parse', 'HEAD^{tree}']).stdout.strip()
+        person = 'J\u00fcrgen M\u00fcller'.encode('latin-1') + b' <dev@example.org> 1700000000 +0000'
+        commit = (b'tree ' + tree + b'\nauthor ' + person + b'\ncommitter ' + person + b'\n\n'
+                  + 'Benchmarks hinzugef\u00fcgt'.encode('latin-1') + b'\n')
+        oid = git(['hash-object', '-t', 'commit', '-w', '--stdin'], input=commit).stdout.strip().decode()
+        git(['update-ref', 'HEAD', oid])
+    return path
